@@ -132,6 +132,17 @@ func checkC19(c c19Case) *core.Failure {
 	defer func() {
 		// (deferred so that the field-by-field comparison above reports first)
 	}()
+	// whatever was manipulated, gopki must be able to live with its own output: an immediate second run changes nothing (C10)
+	if c.Mask%2 == 0 {
+		snap := dm.Clone()
+		res2 := core.Run(dm, core.FlagDefault)
+		if res2.Panic != "" {
+			return core.Failf("C19/panic", "gopki panicked on the rerun: %s", res2.Panic)
+		}
+		if !res2.OK() || len(res2.Changes) != 0 || len(snap.Diff(dm)) != 0 {
+			return core.Failf("C19/rerun-not-noop", "a second default run right after generating the manipulated certificate is not a no-op: %s (mask %06b)\n%s", res2.String(), c.Mask, string(wm.Ent(c.B.Target).Render()))
+		}
+	}
 	// taking the manipulations out of the configuration again gives the plain certificate back
 	if c.Mask != 0 && c.Mask%4 == 1 {
 		for i := range wb.Ents {
